@@ -472,11 +472,11 @@ impl Gen {
                 }
                 a }
         };
-        // a non-bulk element somewhere (never at the first key of a blocking command: that request
-        // would poll forever, see notes/C09.md)
-        if args.len() >= 3 && self.rng.chance(1, 25) {
+        // a non-bulk element somewhere (also at the first key of a blocking command: answered
+        // "ERR invalid key argument" since /repo 0d5fc60, it used to poll forever)
+        if args.len() >= 2 && self.rng.chance(1, 25) {
             st.count("gen.cmd.nil_argument");
-            let i = self.rng.range(2, args.len() as i64 - 1) as usize;
+            let i = self.rng.range(1, args.len() as i64 - 1) as usize;
             args[i] = None;
         }
         args
